@@ -122,12 +122,15 @@ def poisson_term(case):
 
 
 def run_model(ctx, terms, tag):
+    """one coqc run (start-up dominates), one Eval per <= 250 cases"""
     out = []
     B = 250
+    body = ""
     for k in range(0, len(terms), B):
-        body = "Definition cases := %s.\nEval vm_compute in cases.\n" % clist(terms[k:k + B])
-        res = ctx.coq_eval(body, requires=("lib.Num", "model.Changepoint"), tag=tag)
-        for r in res[0]:
+        body += "Definition cases%d := %s.\nEval vm_compute in cases%d.\n" % (k, clist(terms[k:k + B]), k)
+    res = ctx.coq_eval(body, requires=("lib.Num", "model.Changepoint"), tag=tag, timeout=1200) if terms else []
+    for block in res:
+        for r in block:
             out.append("assert" if r is None else [int(x) for x in r[1]])
     return out
 
